@@ -383,6 +383,9 @@ def zernike_index(j):
         Azimuthal Zernike index.
 
     """
+    # a plain integer whatever integer type the index arrives in (uint64 has
+    # no bitwise and with a Python int)
+    j = int(j)
     if j < 1:
         raise ValueError('Zernike index j must be a positive integer')
 
